@@ -4,8 +4,8 @@ import Fundraising.Proofs.Tie.Pure
 namespace Fundraising
 open Fundraising.Gen Fundraising.Go
 
-theorem fixedLoop_eq (a : Auction) (bid : Bid) (L : List Bid) (tot : Int) :
-    ValidateFixedPriceBid.loop1 a bid L tot =
+theorem fixedLoop_eq (a : Auction) (L : List Bid) (tot : Int) :
+    ValidateFixedPriceBid.loop1 a L tot =
       Loop.done ((L.filter (fun b => decide ((b.auction : Int) = (a.id : Int)))).foldl (fun s b => s + b.toSelling a.payDenom) tot) := by
   induction L generalizing tot with
   | nil => simp [ValidateFixedPriceBid.loop1]
